@@ -12,6 +12,9 @@ import (
 	"sort"
 	"strings"
 
+	"github.com/openGemini/openGemini/lib/logger"
+	"go.uber.org/zap"
+
 	"verif/harness/internal/hx"
 )
 
@@ -106,9 +109,347 @@ func uniq(xs []string) []string {
 	return out
 }
 
+
+// ---- specification side ---------------------------------------------------------------------
+
+func hasPriv(u *userSpec, db string, want int) bool {
+	if u.admin {
+		return true
+	}
+	p, ok := u.privs[db]
+	return ok && (p == want || p == 3)
+}
+
+// sufficient: does the property allow `u` (nil = no valid credentials) to use the route?
+func sufficient(nd string, u *userSpec, db string, st *stmtDesc) bool {
+	if nd == "public" {
+		return true
+	}
+	if u == nil {
+		return false
+	}
+	if u.admin {
+		return true
+	}
+	switch nd {
+	case "user":
+		return true
+	case "read":
+		return hasPriv(u, db, 1)
+	case "write":
+		return hasPriv(u, db, 2)
+	case "admin":
+		return false
+	case "query":
+		if st == nil {
+			return false
+		}
+		for _, privs := range st.privs {
+			for _, p := range privs {
+				if p.Admin {
+					return false
+				}
+				if p.Privilege == 0 {
+					continue
+				}
+				d := p.Name
+				if d == "" {
+					d = db
+				}
+				if !hasPriv(u, d, int(p.Privilege)) {
+					return false
+				}
+			}
+		}
+		return true
+	}
+	return false
+}
+
+var preMuxClass = []string{"/debug/pprof", "/debug/vars", "/debug/query"}
+
+func routeClass(pattern string) string {
+	for _, p := range preMuxClass {
+		if strings.HasPrefix(pattern, p) {
+			return p
+		}
+	}
+	return pattern
+}
+
+func noauthzClass(pattern string) string {
+	if strings.HasPrefix(pattern, "/api/v1/repository") || strings.HasPrefix(pattern, "/api/v1/logstream") || strings.HasPrefix(pattern, "/repo/") {
+		return "noauthz:logkeeper-api"
+	}
+	return "noauthz:" + pattern
+}
+
+// ---- one route request -------------------------------------------------------------------------
+
+const readStmtOp = "SelectStatement,-,011.-" // what the non-/query read handlers build: READ on the request's database
+
+var defaultSelect = func() *stmtDesc {
+	d, err := describe("SELECT * FROM m")
+	if err != nil {
+		panic(err)
+	}
+	return d
+}()
+
+func (e *env) routeOp(c *hx.Ctx, method, pattern, path, db string, cc credCase, st *stmtDesc) {
+	if pattern == "/query" && st == nil {
+		st = defaultSelect
+	}
+	text := ""
+	qop := readStmtOp
+	if st != nil {
+		text = st.text
+		qop = st.op
+	}
+	q, body, hdrs := shape(method, path, text)
+	if db != targetDB {
+		q.Set("db", db)
+		if path == "/api/v2/write" {
+			q.Set("bucket", db+"/autogen")
+		}
+	}
+	e.rec.reset()
+	failpointClear()
+	resp := e.fire(method, path+"?"+q.Encode(), body, hdrs, cc.c)
+	eff, _ := e.rec.snapshot()
+	if failpointArmed() {
+		eff = append(eff, "failpoint.Enable")
+		failpointClear()
+	}
+	e.unlock()
+	out := resp.outcome()
+	ans := out
+	if out != "pass" && !strings.HasPrefix(out, "err") && out != "hung" {
+		ans += " fx=" + b01(len(eff) > 0)
+	}
+	dbx := false
+	for _, d := range e.w.dbs {
+		dbx = dbx || d == db
+	}
+	op := fmt.Sprintf("route %s %s %s db=%s dbx=%s %s q=%s", e.cfg.op(), method, hexs(path), hexs(db), b01(dbx), cc.c.op(), qop)
+	line := c.Emit(op, ans)
+	nd := need(method, pattern)
+	c.Case(op, cc.class != "admin")
+	c.Count("route:class=" + cc.class)
+	c.Count("route:transport=" + cc.transport)
+	c.Count("route:outcome=" + out)
+	c.Count("route:need=" + nd)
+	if len(eff) > 0 {
+		c.Count("route:acted")
+	}
+	if strings.HasPrefix(out, "err") || out == "hung" {
+		c.Violation(line, "panic", fmt.Sprintf("%s %s: %s", method, path, out))
+		return
+	}
+	// the property
+	var u *userSpec
+	if cc.user != "" {
+		u = e.w.user(cc.user)
+	}
+	if !e.w.auth || !e.w.adminExists() || (u != nil && u.rw) {
+		return // outside the property's hypothesis (auth on, an administrator exists); rwuser is not a class of the property
+	}
+	if sufficient(nd, u, db, st) {
+		return
+	}
+	desc := fmt.Sprintf("%s %s cred=%s/%s need=%s -> status %d effects=%v", method, path, cc.class, cc.transport, nd, resp.status, uniq(eff))
+	akey := method + " " + path
+	if cc.class == "none" && out == "pass" {
+		e.anonPass[akey] = true
+	}
+	if u == nil {
+		if out == "pass" {
+			c.Violation(line, "route:"+routeClass(pattern), "answers without valid credentials: "+desc)
+		} else if len(eff) > 0 {
+			c.Violation(line, "route:"+routeClass(pattern), "acts while denying: "+desc)
+		}
+		return
+	}
+	cls := noauthzClass(routeClass(pattern))
+	if e.anonPass[akey] {
+		cls = "route:" + routeClass(pattern) // no authentication at all on this route: the same defect
+	}
+	if out == "pass" && (len(eff) > 0 || resp.status/100 == 2) {
+		c.Violation(line, cls, "acts for an authenticated user lacking the needed privilege: "+desc)
+	} else if out != "pass" && len(eff) > 0 {
+		c.Violation(line, cls, "acts while denying: "+desc)
+	}
+}
+
+func emitWorld(c *hx.Ctx, w *world) {
+	for _, l := range w.opLines() {
+		c.Emit(l, "ok")
+	}
+}
+
+// routesOp ties the extracted table to the live mux: same (method, pattern) set.
+func (e *env) routesOp(c *hx.Ctx) {
+	var xs []string
+	for _, r := range e.liveRoutes() {
+		xs = append(xs, r.method+":"+r.pattern)
+	}
+	sort.Strings(xs)
+	c.Emit("routes "+e.cfg.op(), strings.Join(xs, ","))
+	c.Count("routes-op")
+}
+
+var extraPaths = []liveRoute{
+	{"GET", "/debug/pprof/"}, {"GET", "/debug/pprof/cmdline"}, {"POST", "/debug/pprof/symbol"}, {"GET", "/debug/pprofX"},
+	{"GET", "/debug/vars"}, {"POST", "/debug/vars"}, {"GET", "/debug/varsity"}, {"GET", "/debug/query"}, {"GET", "/debug/query/x"},
+	{"GET", "/debug/ctrl"}, {"GET", "/debug"}, {"GET", "/"}, {"GET", "/nope"}, {"GET", "/query/"}, {"PUT", "/query"}, {"DELETE", "/write"},
+	{"GET", "/write"}, {"POST", "/ping"}, {"GET", "/failpoint"}, {"GET", "/api/v1/tsdb/db0"}, {"POST", "/api/v1/repository"},
+	{"GET", "/api/v1/logstream"}, {"GET", "/repo/db0/logstreams/ls0"}, {"GET", "/runtime_config"}, {"OPTIONS", "/ping"}, {"OPTIONS", "/debug/vars"},
+}
+
+func (e *env) allTargets(allPatterns []liveRoute) []liveRoute {
+	seen := map[string]bool{}
+	var out []liveRoute
+	add := func(r liveRoute) {
+		k := r.method + " " + r.pattern
+		if !seen[k] {
+			seen[k] = true
+			out = append(out, r)
+		}
+	}
+	for _, r := range e.liveRoutes() {
+		add(r)
+	}
+	for _, r := range allPatterns {
+		add(r) // registrations of other configurations: must be 404/405 here
+	}
+	for _, r := range extraPaths {
+		add(r)
+	}
+	return out
+}
+
 func Run(c *hx.Ctx) error {
 	if c.Arg("explore", "") != "" {
 		return explore(c)
 	}
+	logger.SetLogger(zap.NewNop())
+	c.Stats.Rule = "exhaustive product: every live (method, pattern) of the real mux in 5 server configurations (+ pre-mux paths, unregistered methods, near-miss paths) x every credential case (11 classes x basic/url/token/bearer transports + malformed variants, ~80 cases) ; real authenticate through a probe route ; UserInfo.AuthorizeDatabase / AuthorizeQuery for every user x database x privilege x statement kind ; grant/revoke sequences (seeded). A case is non-trivial when the credential class is not the administrator; distinct by op line"
+	thorough := c.Tier == "thorough"
+	rng := hx.NewRng(c.Seed)
+
+	// every (method, pattern) any configuration registers
+	full := newEnv(baseWorld("s3cret"), cfgSpec{logKeeper: true, flux: true, pprof: true, ext: true}, false)
+	allPatterns := full.liveRoutes()
+
+	var stmts []*stmtDesc
+	for _, t := range statementTexts {
+		d, err := describe(t)
+		if err != nil {
+			c.Count("stmt-skipped:" + t)
+			continue
+		}
+		stmts = append(stmts, d)
+		for _, k := range d.kinds {
+			c.Count("stmt-kind:" + k)
+		}
+	}
+
+	type run struct {
+		w       *world
+		cfg     cfgSpec
+		classes map[string]bool // nil = all
+	}
+	noAdmin := baseWorld("s3cret")
+	noAdmin.users = noAdmin.users[1:]
+	authOff := baseWorld("s3cret")
+	authOff.auth = false
+	runs := []run{
+		{baseWorld("s3cret"), cfgSpec{logKeeper: true, flux: true, pprof: true, ext: true}, nil},
+		{baseWorld("s3cret"), cfgSpec{}, nil},
+		{baseWorld(""), cfgSpec{logKeeper: true, pprof: true}, map[string]bool{"bearer": true}},
+		{authOff, cfgSpec{logKeeper: true, flux: true, pprof: true}, map[string]bool{"none": true, "admin": true, "ro": true}},
+		{noAdmin, cfgSpec{logKeeper: true, pprof: true}, map[string]bool{"none": true, "ro": true, "wo": true, "unknown": true}},
+	}
+	for _, rn := range runs {
+		e := newEnv(rn.w, rn.cfg, false)
+		emitWorld(c, rn.w)
+		e.routesOp(c)
+		cases := credCases(rn.w)
+		for _, r := range e.allTargets(allPatterns) {
+			path := concretePath(r.pattern)
+			for _, cc := range cases {
+				if rn.classes != nil && !rn.classes[cc.class] && !rn.classes[cc.transport] {
+					continue
+				}
+				e.routeOp(c, r.method, r.pattern, path, targetDB, cc, nil)
+			}
+		}
+		// other target databases on the routes that take one
+		for _, db := range []string{"db1", "nodb"} {
+			for _, r := range e.liveRoutes() {
+				if nd := need(r.method, r.pattern); nd != "read" && nd != "write" && nd != "query" || strings.Contains(r.pattern, "{repository}") {
+					continue
+				}
+				for _, cc := range cases {
+					if cc.transport != "basic" && cc.class != "none" {
+						continue
+					}
+					e.routeOp(c, r.method, r.pattern, concretePath(r.pattern), db, cc, nil)
+				}
+			}
+		}
+	}
+
+	// /query: every statement kind x every credential case
+	{
+		w := baseWorld("s3cret")
+		e := newEnv(w, cfgSpec{pprof: true}, false)
+		emitWorld(c, w)
+		cases := credCases(w)
+		for _, st := range stmts {
+			for _, m := range []string{"GET", "POST"} {
+				for _, cc := range cases {
+					if !thorough && cc.transport != "basic" && cc.transport != "bearer" && cc.class != "none" {
+						continue
+					}
+					e.routeOp(c, m, "/query", "/query", targetDB, cc, st)
+				}
+			}
+		}
+		// function level: UserInfo.AuthorizeDatabase / AuthorizeQuery
+		e.authzOps(c, stmts)
+	}
+
+	// the real authenticate through a probe route
+	for _, w := range []*world{baseWorld("s3cret"), baseWorld(""), authOff, noAdmin} {
+		e := newEnv(w, cfgSpec{}, true)
+		emitWorld(c, w)
+		for _, cc := range credCases(w) {
+			e.authOp(c, cc.c, cc.class)
+		}
+		n := 300
+		if thorough {
+			n = 20000
+		}
+		for i := 0; i < n; i++ {
+			e.authOp(c, fuzzCred(rng, w), "fuzz")
+		}
+	}
+
+	// grant / revoke: a privilege change moves exactly the decisions of that user on that database
+	{
+		w := baseWorld("s3cret")
+		e := newEnv(w, cfgSpec{}, false)
+		emitWorld(c, w)
+		steps := 40
+		if thorough {
+			steps = 1500
+		}
+		e.grantRevoke(c, rng, steps, stmts)
+	}
+	c.Stats.Notes = append(c.Stats.Notes,
+		"exhaustive: the route x method x credential-case x transport product is enumerated completely in every tier (hx.Stats has no `exhaustive` field); seeds only vary the fuzzed credentials of the auth ops and the grant/revoke sequence",
+		"user lock-out after 5 failed logins (30 s wall clock) is outside the model and is cleared between requests",
+		"world without any user (bootstrap: first statement may create the admin) is not enumerated; the property assumes an administrator exists")
 	return nil
 }
